@@ -606,6 +606,68 @@ func blockedServicesSchedule(c *Ctx, rule string) {
 				"a list of blocked services is applied under the pause schedule of another list (a client's own pause is ignored, or the global pause silences a client's own list)", det...)
 		}
 	}
+	// the same for a function that puts the rules into the settings itself (the helper that used to do it returns
+	// them now): the lists applied are the IDs fields its stored value is made from
+	for _, fn := range p.ModFnsIn("filtering") {
+		if fn.Blocks == nil || core.FuncKey(fn) == "(*filtering.DNSFilter).ApplyBlockedServicesList" {
+			continue
+		}
+		k := 0
+		for _, b := range fn.Blocks {
+			for _, in := range b.Instrs {
+				st, isSt := in.(*ssa.Store)
+				if !isSt {
+					continue
+				}
+				if fr, ok := core.FieldOfAddr(st.Addr); !ok || fr.Type != "filtering.Settings" || fr.Field != "ServicesRules" {
+					continue
+				}
+				var lists []ssa.Value
+				for _, o := range core.Origins(st.Val, core.ProvOpts{Prog: p}) {
+					if o.Kind == "field" && strings.HasSuffix(o.Key, "BlockedServices.IDs") && o.Val != nil {
+						lists = append(lists, o.Val)
+					}
+				}
+				if len(lists) == 0 {
+					continue // not an application of a list of services (a reset, a copy)
+				}
+				n++
+				k++
+				okAll := true
+				var det []string
+				for _, lv := range lists {
+					fr, owner, isF := core.LoadedField(core.ResolveCellLoad(lv))
+					if !isF || fr.Field != "IDs" {
+						okAll = false
+						det = append(det, "the list of services is not the IDs field of a BlockedServices value")
+						continue
+					}
+					gs, ngs := core.CondEdges(fn, func(at core.Atom) (bool, bool) {
+						if at.Op != token.ILLEGAL {
+							return false, false
+						}
+						cc, _, ok := core.CallResult(at.Base)
+						if !ok || core.CalleeKey(cc.Common()) != "(*schedule.Weekly).Contains" || !core.IsCallResult(cc.Common().Args[1], -1, "time.Now") {
+							return false, false
+						}
+						fs, sOwner, isS := core.LoadedField(core.ResolveCellLoad(cc.Common().Args[0]))
+						if !isS || fs.Field != "Schedule" || core.AccessPath(sOwner) != core.AccessPath(owner) {
+							return false, false
+						}
+						return true, false
+					})
+					offS, _ := core.UnguardedSinksLocal(fn, func(x ssa.Instruction) bool { return x == in }, gs)
+					if ngs == 0 || len(offS) > 0 {
+						okAll = false
+						det = append(det, "the services of "+fr.String()+" are applied without Contains(time.Now()) on the Schedule of the same value")
+					}
+				}
+				r.Check(okAll, rule, fmt.Sprintf("schedule-of-the-applied-list:%s#s%d", core.FuncKey(fn), k), p.InstrPos(in),
+					"the pause schedule consulted is the one that belongs to the list of services being applied",
+					"a list of blocked services is applied under the pause schedule of another list, or without consulting it (a client's own pause is ignored, or the global pause silences a client's own list)", det...)
+			}
+		}
+	}
 	r.Floor(rule, "blocked-services-application-sites", n, 2)
 }
 
